@@ -12,16 +12,19 @@ package dnsmsg
 //   - Release* of an object that was already released and not handed out again is a "double-release" (the object
 //     would sit in its sync.Pool twice and be given to two owners): recorded with the stacks of both releases
 //     and swallowed, so that the rest of the run is not corrupted by it;
-//   - a released object is NOT put back into its sync.Pool: it is poisoned (recognisable header / type / class /
-//     ttl values) and parked in a bounded FIFO quarantine that keeps it referenced, so that neither the pool nor the
-//     allocator can hand its memory to somebody else.  A stale reader sees poison, never another owner's data.
+//   - a released object is NOT recycled: it is poisoned (recognisable header / type / class / ttl values) and parked
+//     in a bounded FIFO quarantine that keeps it referenced, so that neither the pool nor the allocator can hand its
+//     memory to somebody else.  A stale reader sees poison, never another owner's data.  Resource structs are kept
+//     out of their sync.Pool (call site in front of the Put).  *Msg and *Question ARE put into their pool by the
+//     unchanged function body (all call sites of ReleaseMsg / ReleaseQuestion are at the top of the function: the
+//     hook runs as a deferred call after the Put), but NewMsg / NewQuestion never hand out a quarantined object
+//     (they drop it from the pool and take the next one), so it cannot reach a new owner either.
 //     VerifObjReleased(o) tells a holder whether the object it was given has been released behind its back
 //     ("released while another owner holds it" / "a released object was returned");
 //   - when an object leaves the quarantine (FIFO overflow, VerifObjFlush) its poison is verified: a difference
 //     proves a WRITE AFTER RELEASE -> "write-after-release";
 //   - NewMsg / NewQuestion log the objects they hand out; handing out an object that is still live (it was in the
-//     pool twice: a double Put that happened while the hook was off) is a "get-while-live", handing out a
-//     quarantined one a "get-of-released".
+//     pool twice: a double Put that happened while the hook was off) is a "get-while-live".
 //
 // The New* functions of the resource structs are one-line functions; hooking them would change existing lines, so
 // only their Release* side is tracked (double release, write after release).
@@ -45,7 +48,7 @@ const (
 )
 
 type VerifObjEvent struct {
-	Kind  string // double-release | write-after-release | get-while-live | get-of-released
+	Kind  string // double-release | write-after-release | get-while-live
 	Type  string // Msg | Question | A | ...
 	Stack string // the offending call (second release / get); for write-after-release: the release
 	First string // double-release: the stack of the first release
@@ -190,6 +193,19 @@ func verifObjPoisonize(o any) {
 	}
 }
 
+// back to the zero value (an object that leaves the quarantine may still sit in its sync.Pool)
+func verifObjUnpoison(o any) {
+	switch v := o.(type) {
+	case *Msg:
+		v.Header = Header{}
+	case *Question:
+		v.Type, v.Class = 0, 0
+	case Resource:
+		h := v.Hdr()
+		h.Type, h.Class, h.TTL = 0, 0, 0
+	}
+}
+
 // is the poison still in place (nobody wrote to the object after its release)?
 func verifObjIntact(o any) bool {
 	switch v := o.(type) {
@@ -250,6 +266,7 @@ func verifObjEvictLocked() {
 	if rec != nil && !verifObjIntact(o) {
 		verifObjRecordLocked(VerifObjEvent{Kind: "write-after-release", Type: verifObjType(o), Stack: verifObjStack(rec.pcs[:])})
 	}
+	verifObjUnpoison(o)
 	if verifObjHead > 4096 && verifObjHead*2 > len(verifObjFifo) {
 		n := copy(verifObjFifo, verifObjFifo[verifObjHead:])
 		for i := n; i < len(verifObjFifo); i++ {
@@ -260,20 +277,26 @@ func verifObjEvictLocked() {
 	}
 }
 
-// verifObjGot logs an object handed out by a New* function.
-func verifObjGot(o any) {
+// verifObjGot logs an object taken out of its pool by NewMsg / NewQuestion. It returns false when the object must not
+// be handed out: it is released (quarantined, or its release is still running) and only sits in the pool because the
+// unchanged body of its Release function put it there.
+func verifObjGot(o any) bool {
 	var pcs [verifObjStackDep]uintptr
 	verifObjMu.Lock()
-	verifObjGets++
+	defer verifObjMu.Unlock()
 	if _, q := verifObjQuar[o]; q {
-		runtime.Callers(3, pcs[:])
-		verifObjRecordLocked(VerifObjEvent{Kind: "get-of-released", Type: verifObjType(o), Stack: verifObjStack(pcs[:])})
-	} else if _, l := verifObjLive[o]; l {
+		return false
+	}
+	if _, r := verifObjReleasing[o]; r {
+		return false
+	}
+	verifObjGets++
+	if _, l := verifObjLive[o]; l {
 		runtime.Callers(3, pcs[:])
 		verifObjRecordLocked(VerifObjEvent{Kind: "get-while-live", Type: verifObjType(o), Stack: verifObjStack(pcs[:])})
 	}
 	verifObjLive[o] = struct{}{}
-	verifObjMu.Unlock()
+	return true
 }
 
 // verifGetMsg / verifGetQuestion take over NewMsg / NewQuestion while the hook is enabled (add-only call sites).
@@ -281,19 +304,27 @@ func verifGetMsg() *Msg {
 	if !verifObjOn.Load() {
 		return nil
 	}
-	m := msgPool.Get().(*Msg)
-	verifObjGot(m)
-	return m
+	for {
+		m := msgPool.Get().(*Msg)
+		if verifObjGot(m) {
+			return m
+		}
+	}
 }
 
 func verifGetQuestion() *Question {
 	if !verifObjOn.Load() {
 		return nil
 	}
-	q := qsPool.Get().(*Question)
-	verifObjGot(q)
-	return q
+	for {
+		q := qsPool.Get().(*Question)
+		if verifObjGot(q) {
+			return q
+		}
+	}
 }
+
+func verifObjEnabled() bool { return verifObjOn.Load() }
 
 // verifObjRelease is the first statement of every Release* function. It returns true when the release must not
 // be carried out (the object is already released: double release).
@@ -320,8 +351,8 @@ func verifObjRelease(o any) bool {
 	return false
 }
 
-// verifObjQuarantine stands in front of the sync.Pool Put of every Release* function. It returns true when it kept
-// the object (which then must not be Put).
+// verifObjQuarantine stands in front of the sync.Pool Put of the Release* functions of the resource structs. It
+// returns true when it kept the object (which then must not be Put).
 func verifObjQuarantine(o any) bool {
 	if !verifObjOn.Load() || verifObjNil(o) {
 		return false
@@ -345,4 +376,11 @@ func verifObjQuarantine(o any) bool {
 	}
 	verifObjMu.Unlock()
 	return true
+}
+
+// verifObjAfterRelease is the deferred call of ReleaseMsg / ReleaseQuestion: it runs after the unchanged body has put
+// the object into its pool. NewMsg / NewQuestion do not hand out an object whose release is running or that is
+// quarantined, so the releaser still is the only legitimate holder here.
+func verifObjAfterRelease(o any) {
+	verifObjQuarantine(o)
 }
